@@ -58,6 +58,11 @@ def run_corpus(prop, rep):
         name = os.path.basename(p)
         fired = code == 1 and "VIOLATION property=%s" % prop in out
         named = fired and (expect is None or re.search(r"^\s+%s(\.\S+)? at " % re.escape(expect), out, re.M) is not None)
+        if code == 3:
+            # the corpus is relative to the pinned tree: a patch whose context is gone is skipped, not a failure
+            rep.note("mutant %s does not apply to this tree: skipped" % name)
+            rep.extra.setdefault("mutants_skipped", []).append(name)
+            continue
         n += 1
         if not named:
             rep.broke("mutant %s not detected as %s (exit %d): %s" % (name, expect, code, out[-400:]))
